@@ -15,6 +15,8 @@ CONSTANTS
  DevNoAtomResname = FALSE
  DevOrderedPairs = FALSE
  DevGateOnce = FALSE
+ DevGateBuildOnly = FALSE
+ DevMissingCache = FALSE
  DevDegree = FALSE
 INVARIANT Judge
 POSTCONDITION Accepted
